@@ -180,6 +180,8 @@ func Universe() []UVal {
 		{Name: "embednil", Go: EmbedOuter{Name: "outer"}, Small: true}, {Name: "embednilptr", Go: &EmbedOuter{}}, {Name: "embedset", Go: EmbedOuter{EmbedInner: &EmbedInner{Count: 4}}},
 		{Name: "mapslicekeys", Go: yaml.MapSlice{{Key: []int{3, 1, 2}, Value: "slicekey"}, {Key: map[string]any{"a": 1}, Value: 2}, {Key: "a", Value: 3}, {Key: []string{"b", "a"}, Value: 4}}, Small: true},
 		{Name: "uintptr", Go: uintptr(7)},
+		{Name: "mapslice1", Go: yaml.MapSlice{{Key: "a", Value: 1}}}, {Name: "mapslice1w", Go: yaml.MapSlice{{Key: "a", Value: int64(1)}}}, {Name: "mapsliceempty", Go: yaml.MapSlice{}, Small: true},
+		{Name: "mapitems", Go: []yaml.MapItem{{Key: "a", Value: 1}}}, {Name: "mapslicedrop", Go: yaml.MapSlice{{Key: "a", Value: DropV{1}}}},
 		{Name: "methodval", Go: MethodStruct{Title: "Hello World"}}, {Name: "methodptr", Go: &MethodStruct{Title: "Hello World"}}, {Name: "taggeda", Go: TaggedA{"lamp", 5, "SKU-1"}}, {Name: "taggedb", Go: &TaggedB{"ada@example.org", "Ada", 7}},
 		{Name: "mu8key", Go: map[uint8]string{1: "a", 200: "b", 255: "c"}, Small: true}, {Name: "mu64key", Go: map[uint64]string{1: "one", 1 << 63: "mid", math.MaxUint64: "max", 5: "five"}},
 		{Name: "manyukey", Go: map[any]any{uint(3): "u3", uint8(2): "u2", -1: "m1", uint64(math.MaxUint64): "max", 1.5: "f"}}, {Name: "mnukey", Go: map[NUint]int{7: 1, 3: 2}},
